@@ -9,6 +9,7 @@ K_CHASSIS, K_LASTCTL, K_BOOT, K_BOOTINV, K_LAN = 10, 11, 12, 13, 14
 K_UNAME, K_UPW, K_UEN, K_UACC = 15, 16, 17, 18
 K_EVRCV, K_EVENT, K_SENS, K_THR, K_THRMASK = 20, 21, 22, 23, 24
 K_PICMG, K_FRUCTL, K_LED, K_FAN, K_POLICY, K_ACT, K_PWRLVL, K_FANPROP, K_RESET = 30, 31, 32, 33, 34, 35, 36, 37, 40
+K_HPMCAP, K_HPMSTAT, K_SELFTEST = 41, 42, 43
 
 
 def default(k):
@@ -59,6 +60,12 @@ def default(k):
         return [0x01, 0, 1, 10, 20]
     if kind == K_FANPROP:
         return [1, 10, 5, 0x80]
+    if kind == K_HPMCAP:
+        return [1, 0x0f, 10, 20, 30, 40, 0x05]
+    if kind == K_HPMSTAT:
+        return [0, 0]
+    if kind == K_SELFTEST:
+        return [0x55, 0]
     return []
 
 
@@ -343,4 +350,10 @@ class RefBmc:
             if len(d) < 2:
                 return [0xc7]
             return ok([0] + get(K_FAN, d[1], 0))
+        if cmd == 0x2e:
+            return ok([0] + get(K_HPMCAP, 0, 0))
+        if cmd == 0x34:
+            return ok([0] + get(K_HPMSTAT, 0, 0))
+        if cmd == 0x36:
+            return ok([0] + get(K_SELFTEST, 0, 0))
         return [0xc1]
